@@ -72,6 +72,24 @@ def build_inputs(tier):
         cases.append(("unterminated", s, "eval"))
         cases.append(("unterminated", "y = 1\n" + s, "exec"))
         cases.append(("unterminated", s + "\nz\n", "exec"))
+    # bracket groups nested inside subprocess commands (with and without the macro bang), closers of the wrong kind,
+    # f-strings / search paths / braces inside groups: whatever the grammar makes of them, only SyntaxError may come out
+    def group(depth):
+        o, c = r.choice([("(", ")"), ("[", "]"), ("{", "}")])
+        inner = []
+        for _ in range(r.randint(0, 3)):
+            k = r.random()
+            if k < 0.35 and depth < 3:
+                inner.append(group(depth + 1))
+            else:
+                inner.append(r.choice(["a", "b.c", "-x", "1", "'s'", 'f"x{y}"', "`p*`", "}", ")", "]", "$HOME", "@(z)", ",", "x=1", "if", "#"]))
+        if r.random() < 0.1:
+            c = r.choice(")]}")
+        return o + r.choice(["", " "]).join(inner) + c
+    for _ in range(400 * N):
+        o, c = r.choice([("$(", ")"), ("$[", "]"), ("!(", ")"), ("![", "]")])
+        words = [r.choice(["echo", "ls", "timeit"]) + r.choice(["", "!", "! "])] + [group(0) if r.random() < 0.7 else r.choice(["a", "-l", "x.y"]) for _ in range(r.randint(1, 3))]
+        cases.append(("subproc-groups", r.choice(["", "v = "]) + o + " ".join(words) + c + "\n", "exec"))
     for rc in corpus.regress("C03"):
         cases.insert(0, ("regress", rc["src"], rc.get("mode", "exec")))
     seen = set()
